@@ -1,4 +1,4 @@
 CONSTANTS Tier = "t"  Emit = TRUE
 SPECIFICATION Spec
-INVARIANT Disjoint OnlySizeGap StrippedLeqTotal CumulativeIffFinal CapsRight NoEffect CoinbaseSigned
+INVARIANT Disjoint OnlySizeGap StrippedLeqTotal CumulativeIffFinal CheckAgrees CapsRight NoEffect CoinbaseSigned
 CHECK_DEADLOCK FALSE
